@@ -212,7 +212,7 @@ class StepResult:
 
 
 def dispatcher_session(server, pre, lines, *, gap=1000, listeners=None, ctrl_cuts=None, quit_at_end=False,
-                       hooks=None, loop=None):
+                       hooks=None, loop=None, final_gap=None):
     """Run the real dispatcher: greeting, inject `pre`, then deliver `lines` one at a time (each after `gap` virtual ms,
     i.e. after the previous command has been fully processed), observe the state before each delivery, then EOF.
     -> StepResult(replies, states, data_writer, raised, server, connection, writer)"""
@@ -249,7 +249,7 @@ def dispatcher_session(server, pre, lines, *, gap=1000, listeners=None, ctrl_cut
             items.append((gap, data, hk))
     reader = HookReader(items, eof=True)
     reader.final_hook = observe if lines else first
-    reader.final_gap = gap
+    reader.final_gap = gap if final_gap is None else final_gap
     res.raised = None
     try:
         loop.run_until_complete(server.dispatcher(reader, writer))
